@@ -238,7 +238,7 @@ class Explorer(object):
             if self.max is not None and self.executions >= self.max:
                 self.capped = True
                 break
-            ex = self.make(prefix).run()
+            ex = self.make(prefix)            # a completed Execution
             self.executions += 1
             if fp is not None and ex.fingerprint(fplen) != fp:
                 raise core.HarnessError('C22: replaying prefix %r diverged from the execution that scheduled it' % (prefix,))
